@@ -1,6 +1,7 @@
 package main
 
 import (
+	"os/exec"
 	"encoding/json"
 	"fmt"
 	"os"
@@ -90,7 +91,7 @@ type replayFile struct {
 	Model      map[string]string `json:"model_entry_values,omitempty"`
 	RawModel   string            `json:"solver_output"`
 	Query      string            `json:"query_file"`
-	Replayed   string            `json:"replay"`
+	Replayed   interface{}       `json:"replay"`
 	Note       string            `json:"note"`
 }
 
@@ -234,7 +235,19 @@ func cmdReplay(args []string) int {
 		fmt.Fprintln(os.Stderr, err)
 		return 2
 	}
-	fmt.Printf("property %s\nobligation %s (%s)\nclause: %s\nsource: %s\nsolver: %s -> %s\nreplay: %s\n", rf.Property, rf.Obligation, rf.Kind, rf.Clause, rf.Pos, rf.Solver, rf.Result, rf.Replayed)
+	fmt.Printf("property %s\nobligation %s (%s)\nclause: %s\nsource: %s\nsolver: %s -> %s\n", rf.Property, rf.Obligation, rf.Kind, rf.Clause, rf.Pos, rf.Solver, rf.Result)
+	if m, ok := rf.Replayed.(map[string]interface{}); ok {
+		fmt.Printf("replay on the real code: %v - %v\n", m["status"], m["how"])
+		if cmdline, ok := m["command"].(string); ok && cmdline != "" {
+			fmt.Println("re-running:", cmdline)
+			c := exec.Command("bash", "-c", cmdline+" 2>&1 | grep -E '^GOVC-(PANIC|RETURNED|RES)|^(ok|FAIL|---)' | head -20")
+			c.Env = append(os.Environ(), "GOFLAGS=-mod=mod", "GOPROXY=off", "GOSUMDB=off", "GOTOOLCHAIN=local")
+			outb, _ := c.CombinedOutput()
+			fmt.Print(string(outb))
+		}
+	} else {
+		fmt.Printf("replay on the real code: %v\n", rf.Replayed)
+	}
 	keys := make([]string, 0, len(rf.Model))
 	for k := range rf.Model {
 		keys = append(keys, k)
